@@ -223,6 +223,14 @@ def impl_slots(case):
         for l in case["requests"]:
             r, d = get_unique_label(l, d); out.append(r)
         return dict(out=out, table=[[k, v] for k, v in d.items()])
+    if case["kind"] == "indexed":
+        from pyrates.ir.circuit import _get_indexed_var_str
+        d = {}
+        try:
+            r = _get_indexed_var_str(case["var"], list(case["idx"]), case["n"], case["reduce"], case["idx_str"] or None, d)
+        except IndexError:
+            return dict(out=None, rec=[])
+        return dict(out=r, rec=[[k, [int(i) for i in v["value"]]] for k, v in d.items()])
     if case["kind"] == "relabel":
         from pyrates.frontend.template.circuit import CircuitTemplate
         return dict(out=CircuitTemplate._relabel_var(case["var"], dict(case["map"])))
@@ -656,6 +664,9 @@ HEADER_E2 = """From Coq Require Import List ZArith Bool String.
 From PV Require Import PyLib Auto Corr.
 E2_IMPORT
 E2_IMPREL
+E2_IMPIDX
+Definition prod_eq_dec {A B} (da : forall x y : A, {x = y} + {x <> y}) (db : forall x y : B, {x = y} + {x <> y}) : forall x y : A * B, {x = y} + {x <> y}.
+Proof. decide equality. Defined.
 Import ListNotations.
 Open Scope Z_scope.
 Definition zl_eqb (a b : list Z) := if list_eq_dec Z.eq_dec a b then true else false.
@@ -666,6 +677,7 @@ E2_LAB
 E2_LB2
 E2_REPL
 E2_RELB
+E2_IDXB
 """
 
 E2_GEN = ("From PVG Require Import Gen_auto_param_indices.",
@@ -681,20 +693,27 @@ E2_REP = ("From PVG Require Import Gen_replace.",
 E2_REL = ("From PVG Require Import Gen_relabel_var.",
           "Definition ok_rel (c : string * sdict * string) := let '(v, m, o) := c in\n"
           "  match relabel_var v m with Some x => String.eqb x o | None => false end.")
+E2_IDX = ("From PVG Require Import Gen_get_indexed_var_str.",
+          "Definition ok_idx (c : string * list Z * Z * bool * string * option string * list (string * list Z)) := let '(v, ix, n, rd, s, o, rec) := c in\n"
+          "  match get_indexed_var_str [] v ix n rd s, o with\n  | Some (x, r), Some y => String.eqb x y && (if list_eq_dec (prod_eq_dec string_dec (list_eq_dec Z.eq_dec)) r rec then true else false)\n"
+          "  | None, None => true | _, _ => false end.")
 E2_LAB = ("From PVG Require Import Gen_generate_unique_label.\nFrom PV Require Import LabelGen.",
           "Definition ok_lab (c : dict * list string * list string * list string) := let '(tab, req, out, keys) := c in\n"
           "  match requests tab req with Some (rs, tab') => sl_eqb rs out && sl_eqb (py_keys tab') keys | None => false end.")
 
 def header_e2(ctx):
-    ok, failed, log = build_coq(["LabelGen", "Gen_get_unique_label", "Gen_replace", "Gen_relabel_var"])   # LabelGen.v = Gen_generate_unique_label + the request state machine
+    ok, failed, log = build_coq(["LabelGen", "Gen_get_unique_label", "Gen_replace", "Gen_relabel_var", "Gen_get_indexed_var_str"])   # LabelGen.v = Gen_generate_unique_label + the request state machine
     lab2 = not any(f.endswith("Gen_get_unique_label.v") for f in failed)
     repl = not any(f.endswith("Gen_replace.v") for f in failed)
     rel = not any(f.endswith("Gen_relabel_var.v") for f in failed)
-    lab = not [f for f in failed if not f.endswith(("Gen_get_unique_label.v", "Gen_replace.v", "Gen_relabel_var.v"))]
+    ixd = not any(f.endswith("Gen_get_indexed_var_str.v") for f in failed)
+    lab = not [f for f in failed if not f.endswith(("Gen_get_unique_label.v", "Gen_replace.v", "Gen_relabel_var.v", "Gen_get_indexed_var_str.v"))]
     if not (lab and lab2 and repl and rel):
         ctx.note(f"E2: label generators not available for validation (failed: {[os.path.basename(f) for f in failed]})")
     gen = not (ctx.proof and set(ctx.proof["failed"]) & {"Gen_auto_param_indices", "PyLib", "Auto"})
     h = HEADER_E2.replace("E2_IMPORT", (E2_GEN[0] if gen else "") + "\n" + (E2_LAB[0] if lab else "") + "\n" + (E2_LAB2[0] if lab2 else "") + "\n" + (E2_REP[0] if repl else ""))
+    h = h.replace("E2_IMPIDX", E2_IDX[0] if ixd else "").replace("E2_IDXB", E2_IDX[1] if ixd else
+                  "Definition ok_idx (c : string * list Z * Z * bool * string * option string * list (string * list Z)) := true.")
     h = h.replace("E2_IMPREL", E2_REL[0] if rel else "").replace("E2_RELB", E2_REL[1] if rel else "Definition ok_rel (c : string * sdict * string) := true.")
     h = h.replace("E2_REPL", E2_REP[1] if repl else "Definition ok_rep (c : string * string * string * bool * bool * string) := true.")
     h = h.replace("E2_LB2", E2_LAB2[1] if lab2 else "Definition ok_lab2 (c : dict * list string * list string * list string) := true.")
@@ -736,6 +755,17 @@ def e2_streams(ctx):
         comps = [rng.choice(["a", "b", "op", "n1", "v", ""]) for _ in range(rng.randint(1, 5))]
         keys = {"/".join(comps[:k]) for k in range(len(comps) + 1) if rng.random() < 0.35} | ({"zz/q"} if rng.random() < 0.3 else set())
         cases.append(dict(kind="relabel", var="/".join(comps), map=[[k, rng.choice(["X", "all/n", "g/h/i"])] for k in sorted(keys)]))
+    for _ in range(60):      # _get_indexed_var_str (list branch) vs Gen_get_indexed_var_str: identity lists, permutations with fixed end points, ...
+        n = rng.randint(0, 14)
+        kind = rng.random()
+        idx = list(range(n))
+        if kind < 0.35 and n > 3:
+            i, j = rng.sample(range(1, n - 1), 2) if n > 3 else (0, 0); idx[i], idx[j] = idx[j], idx[i]      # end points stay
+        elif kind < 0.5: rng.shuffle(idx)
+        elif kind < 0.6: idx = idx[:-1]
+        elif kind < 0.7: idx = [rng.randrange(max(n, 1)) for _ in range(n)]
+        cases.append(dict(kind="indexed", var=rng.choice(["r", "x_v1"]), idx=idx, n=rng.choice([n, n, n, n + 1, len(idx)]), reduce=rng.random() < 0.5,
+                          idx_str=rng.choice(["", "", "source_idx"])))
     outs = run_impl(ctx, "c18", "impl_slots", cases, nworkers=1)
     sl = [(c, o) for c, o in zip(cases, outs) if c["kind"] == "slots" and "err" not in o]
     lb = [(c, o) for c, o in zip(cases, outs) if c["kind"] == "labels" and "err" not in o]
@@ -751,15 +781,19 @@ def e2_streams(ctx):
     t3 = clist([f"({cstr(c['eq'])}, {cstr(c['term'])}, {cstr(c['rep'])}, {b_(c['rhs'])}, {b_(c['lhs'])}, {cstr(o['out'])})" for c, o in rp])
     rl = [(c, o) for c, o in zip(cases, outs) if c["kind"] == "relabel" and "err" not in o]
     t4 = clist([f"({cstr(c['var'])}, {clist([cpair(cstr(k), cstr(v)) for k, v in c['map']])}, {cstr(o['out'])})" for c, o in rl])
+    ix = [(c, o) for c, o in zip(cases, outs) if c["kind"] == "indexed" and "err" not in o]
+    t5 = clist([f"({cstr(c['var'])}, {clist([cz(i) for i in c['idx']])}, {cz(c['n'])}, {'true' if c['reduce'] else 'false'}, {cstr(c['idx_str'])}, "
+                f"{copt(o['out'], cstr)}, {clist([cpair(cstr(k), clist([cz(i) for i in v])) for k, v in o['rec']])})" for c, o in ix])
     T = "list (dict * list string * list string * list string)"
     body = (f"Definition s := {t1}.\nDefinition l : {T} := {t2}.\nDefinition l2 : {T} := {labterm(l2)}.\nEval vm_compute in (mismatches ok_gen s).\n"
             "Eval vm_compute in (mismatches ok_closed s).\nEval vm_compute in (mismatches ok_lab l).\nEval vm_compute in (mismatches ok_lab2 l2).\n"
             f"Definition r3 : list (string * string * string * bool * bool * string) := {t3}.\nEval vm_compute in (mismatches ok_rep r3).\n"
-            f"Definition r4 : list (string * sdict * string) := {t4}.\nEval vm_compute in (mismatches ok_rel r4).\n")
+            f"Definition r4 : list (string * sdict * string) := {t4}.\nEval vm_compute in (mismatches ok_rel r4).\n"
+            f"Definition r5 : list (string * list Z * Z * bool * string * option string * list (string * list Z)) := {t5}.\nEval vm_compute in (mismatches ok_idx r5).\n")
     ls = parse_nat_lists(coq_eval(ctx, "c18_e2", header_e2(ctx), body))
-    assert len(ls) == 6, ls
+    assert len(ls) == 7, ls
     crashed = [c for c, o in zip(cases, outs) if "err" in o]
-    bad_tr = [sl[i][0] for i in ls[0]] + [lb[i][0] for i in ls[2]] + [l2[i][0] for i in ls[3]] + [rp[i][0] for i in ls[4]] + [rl[i][0] for i in ls[5]] + crashed
+    bad_tr = [sl[i][0] for i in ls[0]] + [lb[i][0] for i in ls[2]] + [l2[i][0] for i in ls[3]] + [rp[i][0] for i in ls[4]] + [rl[i][0] for i in ls[5]] + [ix[i][0] for i in ls[6]] + crashed
     bad_cf = [(sl[i][0], sl[i][1]) for i in ls[1] if i in dflt]
     dup = [c for c, o in lb if len([r for r in o["out"] if r != "t"]) != len({r for r in o["out"] if r != "t"})]
     return cases, bad_tr, bad_cf, dup
